@@ -1,4 +1,5 @@
-"""Registry entries of the namespace group (C09, C10, C11, C15, C19): suite `ns`, model lean/Model/Namespace.lean."""
+"""Registry entries of the namespace group (C09, C10, C11, C15, C19): suite `ns`, model lean/Model/Namespace.lean;
+C15 additionally suite `rootinfer`, model lean/Model/RootInfer.lean."""
 
 _TECH = ("Lean 4 theorems over an executable model of the namespace layer (file-name parsing, sorting, reference resolution, "
          "the recursive caching reader with its termination proof, direct/transitive bookkeeping, cross-definition checks) + "
@@ -100,7 +101,7 @@ REG = {
     },
     "C15": {
         "module": ["Props.C15", "Props.C15Gen"],
-        "suites": [("ns", (2500, 40000))],
+        "suites": [("ns", (2500, 40000)), ("rootinfer", (1000, 30000))],
         "rule": "80% file-name cases: 1-6 files with well-formed names (port-ID present/absent, versions up to 255, both extensions, depth 0-5, namespace components equal "
                 "to root names), 11% malformed shapes (wrong arity, non-numeric, empty components, dots in directories), 2% names only int() accepts, 5% non-definition "
                 "files; read_namespace and read_files with up to 4 of the spellings: bare root names, relative with chdir, relative without roots, relative target welded "
@@ -110,16 +111,42 @@ REG = {
                 "inside a root designated as the root, with the directory above a root designated as the root, with other lookups / targets / flags / spellings, in "
                 "random order; every call of the sequence is judged as if it were the only one (what a fresh process gives). Besides the expected result computed from "
                 "the abstract tree, every returned type is checked on its own: name, version and port-ID are recomputed from source_file_path relative to "
-                "source_file_path_to_root, which must be the designated directory that holds the file",
-        "technique": _TECH,
+                "source_file_path_to_root, which must be the designated directory that holds the file; "
+                "suite rootinfer: small trees in a real temporary directory (1-2 workspaces at depth 0-3 below the sandbox, 1-3 root directories each, root names that "
+                "also occur as workspace / namespace component names, the same root name in two workspaces, empty directories, plain files, rarely malformed file names or "
+                "a dotted root name), per tree the canonical designation (absolute target, absolute root alone) and 3-8 further calls of DSDLDefinition.from_first_in "
+                "(+ _infer_path_to_root_from_first_found, compared unresolved) or read_files (15%, 1-3 targets), each from a working directory of its own (sandbox, "
+                "the root's parent, the root, inside the root, two levels up, any directory) with the target spelled absolute / relative to the working directory / "
+                "relative to the root's parent, each plain or with `.`, `//`, trailing `/`, `name/..` detours through existing directories, missing names and plain files, "
+                "odd targets (`.`, empty, `..`, a directory, relative to the grandparent), and a root list in every order made of: the own root as absolute path, "
+                "working-directory-relative path, bare name, with `..` detours, or omitted; other roots of the tree in the same forms, missing directories, "
+                "ancestors and children of the root, `.`, `..`, `../..`, the sandbox's parents, duplicates; 10% without roots (INFERENCE 1); the corpus holds the "
+                "examples of the read_files docstring (every root form x working directory) and the inputs of the fix commits 3477183 and 1e7d19c",
+        "technique": _TECH + "; suite rootinfer: executable Lean model of the four inferences, the anchoring of from_first_in and lexical pathlib "
+                     "resolution over an abstract file system (Model/RootInfer.lean), compared call by call with the real functions (inferred root as returned, "
+                     "resolved root, file, name / version / port-ID or the error class), + an oracle by plain path arithmetic: clean designations of one file "
+                     "must agree with the canonical one and documented ones must succeed",
         "level_text": "Proved in Lean 4: parsing `[<port-id>.]<ShortName>.<major>.<minor>.<ext>` returns exactly the rendered components for all names, versions and port-IDs; "
                       "every accepted name has that shape with plain decimal numerals, every other name is a FileNameFormatError; the definition and the composite built from "
                       "it carry exactly the name, version, port-ID, file path and root directory encoded in the path; end to end (C15.result_identity, "
                       "result_identity_files) every type read_namespace / read_files return, direct or transitive, through the cache and the book-keeping, carries the "
-                      "identity of one file under the accepted directories. The four root-inference strategies are exercised on a "
-                      "real tree with chdir and symlinks and must give identical results for every designation.",
+                      "identity of one file under the accepted directories. The root inference of read_files is modelled (INFERENCE 1-4 in order, "
+                      "the lexical match with its `.`/`..` guard, the resolved match with its existence condition, the loop welding a relative target onto the parents "
+                      "of each root, the bare-name inference, the anchoring of from_first_in, the checks of __init__; lexical resolution against a working directory "
+                      "over an abstract file system) and proved uniform for all trees, working directories and root lists: a file under root R designated by an "
+                      "absolute root, a working-directory-relative root path (any spelling with `.`/`..`, any other non-nested roots before and after), a target relative "
+                      "to the root's parent with a root path, the bare root name with an absolute or relative target, or no roots from the root's parent, always "
+                      "yields exactly (R, file) and the definition DSDLDefinition.__init__ builds from the path relative to R (C15.designation_resolved, "
+                      "designation_absolute_root, designation_relative_root, designation_root_parent_relative, designation_bare_name, designation_no_roots, "
+                      "designations_agree, designation_identity, read_files_targets), each with the side conditions the code needs as decidable hypotheses; "
+                      "the three designations that were not handled uniformly before /repo 418aff7, 866a874 and 772b846 (the mixed third root form of the read_files docstring; a root "
+                      "given as a path and by its bare name; a root-parent-relative target welded onto an ancestor of another root) are now instances of these theorems "
+                      "(C15.mixed_names_and_paths_uniform, C15.bare_name_with_root_path_uniform, C15.welded_onto_listed_roots_only); what stays order-dependent on purpose is "
+                      "shown on witnesses (C15.bare_name_alone_is_relative_to_cwd, C15.two_roots_of_one_name_first_wins). The model is run against the real functions on every run; "
+                      "symlinks are exercised by the ns suite on a real tree.",
         "level_note": _NOTE,
-        "partial": ["the root-inference strategies of _infer_path_to_root_from_first_found and pathlib resolution are not modelled: invariance of the outcome under the designation is checked by the correspondence + oracle only",
+        "partial": ["root inference: symbolic links, a leading `//`, permissions are outside Model/RootInfer.lean (pathlib resolution is lexical in the model; symlinked roots / targets are covered by the ns correspondence only)",
+                    "root inference: the uniformity theorems exclude, by explicit hypotheses, what the code resolves by 'first match wins' (documented: the order of the root list matters): (a) two listed roots that resolve to directories above the file (nested roots), (b) a listed bare name that occurs earlier on the typed path of the target than the root's own name, (c) a root-parent-relative target that exists under the parents of two listed roots of the same NAME (`hone`; witness C15.two_roots_of_one_name_first_wins), (d) for the root-parent-relative designation a root path spelled with `..` (the welded path is looked up physically), (e) a root-parent-relative target with the root given by its bare name only from another working directory (pure-path fallback: C15.bare_name_alone_is_relative_to_cwd)",
                     "reserved words of _name.py are not modelled"],
         "assumptions": _ASSUME,
     },
